@@ -176,6 +176,12 @@ theorem dict_backdoor_unused : Purity.dictAccessOk Generated.Writes.dictAccess =
 theorem intro_results_are_fresh :
     FrontFacts.introFactsOk Generated.FrontFacts.introFacts = true := by decide
 
+/-- Nothing in the hand-written modules calls `hash()` (salted per interpreter for strings), `id()`,
+    `random`, `uuid`, `time`, `datetime`, `secrets`, `os.urandom/getpid`, `tempfile` or
+    `object.__hash__/__repr__`: no name, digest or suffix in a built model can be derived from the
+    hash seed or an address through an *explicit* call (set iteration is the other way in; that is `π`). -/
+theorem no_process_dependent_calls : Generated.FrontFacts.processDependent = [] := by decide
+
 /-! ## Memoised build results (`Graph._build_result`) -/
 
 /-- **cache_transparent.** For any sequence of reads (`_get_build_result`) and setter calls on a
